@@ -352,3 +352,7 @@ func c12NewFile(w int) *os.File {
 	}
 	return r
 }
+
+func vfRaceBegin(tag int)   {}
+func vfRaceEnd()            {}
+func vfRaceCheck(id string) {}
